@@ -289,9 +289,9 @@ func c05Pin(c *Ctx) {
 	rule := "C05.pin"
 	c.Rule(rule, "A8+A3: the query entry point calls AcquireReader exactly once, outside any loop; no function reachable from it (VTA call graph, module functions) accesses FBDNSDB.dnsdb except AcquireReader; db.DB.dbi is only ever stored into freshly allocated DB values (write-once)")
 	serve := c.Func("dnsserver", "(*FBDNSDB).ServeDNSWithRCODE")
-	acq := c.TypesFunc("dnsserver", "(*FBDNSDB).AcquireReader")
+	acquirers := readerAcquirers(c)
 	c.Examined(serve)
-	calls := callsTo(serve, func(f *types.Func) bool { return f == acq })
+	calls := callsTo(serve, func(f *types.Func) bool { return acquirers[f] })
 	c.Check(rule, fnName(serve)+"|acquire-once", len(calls) == 1, serve.Pos(), fmt.Sprintf("%d calls of AcquireReader in the query entry point (exactly one pins one generation per query)", len(calls)))
 	for _, cl := range calls {
 		c.Check(rule, fnName(serve)+"|acquire-not-in-loop", !inCycle(cl.Block()), cl.Pos(), "AcquireReader is not inside a loop")
@@ -320,7 +320,6 @@ func c05Pin(c *Ctx) {
 	}
 	walk(serve)
 	spec := &GuardSpec{Name: "FBDNSDB.dnsdb", Field: c.Field("dnsserver", "FBDNSDB", "dnsdb"), Mutex: "reloadMu"}
-	acqFn := c.SSA.FuncValue(acq)
 	var offenders []string
 	nreach := 0
 	var fns []*ssa.Function
@@ -333,7 +332,7 @@ func c05Pin(c *Ctx) {
 			continue
 		}
 		nreach++
-		if fn == acqFn {
+		if o, ok := fn.Object().(*types.Func); ok && acquirers[o] {
 			continue
 		}
 		if accs := findAccesses(spec, fn); len(accs) > 0 {
@@ -341,7 +340,13 @@ func c05Pin(c *Ctx) {
 		}
 	}
 	c.Check(rule, fnName(serve)+"|only-AcquireReader-reads-dnsdb", len(offenders) == 0, serve.Pos(), fmt.Sprintf("%d module functions reachable from the query entry point examined; other readers of dnsdb: %v", nreach, offenders))
-	c.Check(rule, fnName(serve)+"|AcquireReader-reachable", seen[acqFn], serve.Pos(), "AcquireReader is on the query path")
+	onPath := false
+	for f := range acquirers {
+		if seen[c.SSA.FuncValue(f)] {
+			onPath = true
+		}
+	}
+	c.Check(rule, fnName(serve)+"|AcquireReader-reachable", onPath, serve.Pos(), "a reader acquisition is on the query path")
 
 	// write-once dbi
 	fDbi := c.Field("db", "DB", "dbi")
@@ -413,4 +418,27 @@ func c05Validate(c *Ctx) {
 		}
 	}
 	c.Floor(rule, 1)
+}
+
+
+// readerAcquirers: methods of FBDNSDB whose first result is a db.Reader (AcquireReader and its variants).
+func readerAcquirers(c *Ctx) map[*types.Func]bool {
+	out := map[*types.Func]bool{}
+	readerT := c.Named("db", "Reader")
+	fb := c.Named("dnsserver", "FBDNSDB")
+	ms := types.NewMethodSet(types.NewPointer(fb))
+	for i := 0; i < ms.Len(); i++ {
+		f, ok := ms.At(i).Obj().(*types.Func)
+		if !ok {
+			continue
+		}
+		res := f.Type().(*types.Signature).Results()
+		if res.Len() > 0 && types.Identical(res.At(0).Type(), readerT) {
+			out[f] = true
+		}
+	}
+	if len(out) == 0 {
+		undecided("no FBDNSDB method returns a db.Reader")
+	}
+	return out
 }
